@@ -457,10 +457,14 @@ func (c *wsConn) handleChanClose(frame frame) {
 }
 
 func (c *wsConn) handleResponse(frame frame) {
+	// inflightLk is held until the channel sink (if any) is registered: the
+	// request is either still in flight here, in which case closeInFlight and
+	// the closeChans following it haven't run yet and will close the sink, or
+	// it has already been failed and no sink must be registered for it
 	c.inflightLk.Lock()
 	req, ok := c.inflight[frame.ID]
-	c.inflightLk.Unlock()
 	if !ok {
+		c.inflightLk.Unlock()
 		log.Error("client got unknown ID in response")
 		return
 	}
@@ -470,6 +474,7 @@ func (c *wsConn) handleResponse(frame frame) {
 		// output is channel
 		var chid uint64
 		if err := json.Unmarshal(frame.Result, &chid); err != nil {
+			c.inflightLk.Unlock()
 			log.Errorf("failed to unmarshal channel id response: %s, data '%s'", err, string(frame.Result))
 			return
 		}
@@ -482,6 +487,7 @@ func (c *wsConn) handleResponse(frame frame) {
 
 		go c.handleCtxAsync(chanCtx, frame.ID)
 	}
+	c.inflightLk.Unlock()
 
 	req.ready <- clientResponse{
 		Jsonrpc: frame.Jsonrpc,
@@ -778,8 +784,9 @@ func (c *wsConn) handleWsConn(ctx context.Context) {
 
 	// on close, make sure to return from all pending calls, and cancel context
 	//  on all calls we handle
-	defer c.closeInFlight()
+	// (deferred calls run in reverse order: closeInFlight, then closeChans)
 	defer c.closeChans()
+	defer c.closeInFlight()
 
 	// setup pings
 
